@@ -19,11 +19,16 @@ UtcTypes == {"chrono_utc", "jiff_timestamp"}
 JudgeFmt(r) ==
     LET i    == [day |-> r.day, sod |-> r.sod]
         utc  == r.b \in UtcTypes
+        expr == utc \/ Expressible(i, r.off)
         want == IF utc THEN FmtUtc(i) ELSE Fmt(i, r.off)
+        got  == Parse(r.s)
     IN [v |-> IF ~InDomain(i, r.off) THEN "ok-outside-domain"
               ELSE IF r.st = "na" THEN "ok-na"              \* the backend's type cannot hold the value
               ELSE IF r.st = "env" THEN "ok-env"            \* process zone did not take the offset
               ELSE IF r.st = "panic" THEN "fmt-panic"
+              \* wall clock in year 10000: no date string denotes (i, off); demanded: a date string of the same instant
+              ELSE IF ~expr THEN (IF got.ok /\ got.day = i.day /\ got.sod = i.sod THEN "ok-inexpressible"
+                                  ELSE "fmt-inexpressible")
               ELSE IF r.s = want THEN "ok" ELSE "fmt-mismatch",
         cls |-> <<r.b, IF utc THEN "utc" ELSE OffClass(r.off),
                   YearClass(IF utc THEN i.day ELSE LocalOf(i, r.off).day)>>]
@@ -33,11 +38,13 @@ JudgeParse(r) ==
         c      == [day |-> r.cday, sod |-> r.csod]
         good(i, o) == want.ok /\ want.day = i.day /\ want.sod = i.sod /\ want.off = o
         \* the spec must agree with itself on strings that are the date string of the case
-        self   == /\ (r.in = Fmt(c, r.coff)) => good(c, r.coff)
+        self   == /\ (Expressible(c, r.coff) /\ r.in = Fmt(c, r.coff)) => good(c, r.coff)
                   /\ (r.in = FmtUtc(c)) => good(c, 0)
         beyond == want.day > r.hi_day \/ (want.day = r.hi_day /\ want.sod > r.hi_sod)
         wall   == Shift([day |-> want.day, sod |-> want.sod], want.off).day
-        impl   == ImplParse(r.p, r.in, FALSE)        \* the code as it is (dev_h41 repaired by fix: 4d9b221)
+        \* the code as it is: dev_h41 repaired by fix: 4d9b221; date-only by jiff needs a GMT entry (r.tzdb = "one":
+        \* the child saw a zone database without one; "empty" makes jiff fall back to the machine's)
+        impl   == ImplParseEnv(r.p, r.in, FALSE, TRUE, r.tzdb # "one")
     IN [v |-> IF ~self THEN "spec-inconsistent"
               ELSE IF ~want.ok THEN "ok-not-a-date-form"    \* nothing is demanded for other strings
               ELSE IF ~want.indom THEN "ok-outside-domain"
@@ -48,8 +55,8 @@ JudgeParse(r) ==
               ELSE IF r.day # want.day \/ r.sod # want.sod THEN "parse-instant"
               ELSE IF r.hasoff /\ r.off # want.off THEN "parse-offset"
               ELSE IF ~impl.ok THEN "ok-drift" ELSE "ok",
-        cls |-> IF want.ok THEN <<r.p, want.form, OffClass(want.off), YearClass(wall)>>
-                ELSE <<r.p, "none", "none", "none">>]
+        cls |-> IF want.ok THEN <<r.p, want.form, OffClass(want.off), YearClass(wall), r.tzdb>>
+                ELSE <<r.p, "none", "none", "none", r.tzdb>>]
 
 \* ev = "zfmt": one conversion inside a process whose local zone follows a daylight-saving rule (r.rule); the
 \* records of one process (run) are consecutive, step 1 first.  h remembers the offset the run started with, so
